@@ -40,6 +40,13 @@ NEURON_LETTERS = [(0.0, 0.0), (0.75, 3.0), (3.0, -1.0)]
 SPIKE_LETTERS = [(0, 0), (1, 0), (1, 1)]
 
 
+def learned_adaptation(a):
+    """a non-zero adaptation that differs between neurons and between the K adaptation components (shape: neurons... x K)"""
+    k = 1 + torch.arange(a.shape[-1], dtype=a.dtype)
+    n = 1 + 0.5 * torch.arange(a[..., 0].numel(), dtype=a.dtype).reshape(a.shape[:-1])
+    return 0.25 * n.unsqueeze(-1) * k
+
+
 def record_contents(rt):
     if rt.ignored:
         return None
@@ -55,7 +62,7 @@ def neuron_component(cname, shifted=False, freeze="eval"):
         n = CLS[cname]((2,), DT, refrac_t=2.0, batch_size=B, **hp)
         if cname in ADAPT_THRESH + ADAPT_CURR:
             a = get_adapt(n, cname)
-            set_adapt(n, cname, torch.full_like(a, 0.25) * (1 + torch.arange(a.shape[-1], dtype=a.dtype)))
+            set_adapt(n, cname, learned_adaptation(a))
         if freeze == "eval":
             n.eval()  # adaptation frozen
         else:
@@ -377,7 +384,7 @@ def shape_shard(kind, cname):
             n = CLS[cname](shape, DT, refrac_t=2.0, batch_size=2, **hp)
             if cname in ADAPT_THRESH + ADAPT_CURR:
                 a = get_adapt(n, cname)
-                set_adapt(n, cname, torch.full_like(a, 0.25) * (1 + torch.arange(a.shape[-1], dtype=a.dtype)))
+                set_adapt(n, cname, learned_adaptation(a))
             n.eval()
         else:
             kw = dict(delay=2.0, batch_size=2)
